@@ -4,8 +4,10 @@ Bridge lemmas for C04: the definitions REGENERATED from the current /repo source
 theorems are stated about the model; a change of `Waiter.Wait`, `IsSlowDown`, `MaxOverdueDuration`, the discard code /
 tag, `DiscardedShootSample` or of the fire/discard `if` in `instance.Run` that is not an identity breaks a lemma here.
 
-`Wait_eq` is stated against the REPAIRED `Wait` (`Model.C04.wait`, fixes/C04-fresh-clock-overdue.diff): it does not hold
-of the code as found, whose regenerated `Wait` equals `Model.C04.waitOld` (lateness judged against the cached reading).
+`Wait_eq` is stated against the REPAIRED `Wait` (`Model.C04.wait`, /repo commit 1006bde): it does not hold of the code as it was
+found, whose regenerated `Wait` equals `Model.C04.waitOld` (lateness judged against the cached reading).
+`iteration_eq` ties the whole pass of the loop of `instance.Run` (order Acquire → Wait → IsSlowDown → Shoot | Report),
+`IsFinished_eq` the loop head, `cliPoolDiscardOverflow_eq` + `cli_default_wiring` the default of `discard_overflow`.
 -/
 import Pandora.Gen.Waiter
 import Pandora.Model.C04
